@@ -24,6 +24,8 @@ pub struct PipeState {
     pub inbound: VecDeque<u8>,
     pub eof: bool,
     pub read_fail: bool,
+    /// the failed read reports UnexpectedEof (a peer that vanished without closing, as TLS transports report it)
+    pub read_fail_unexpected_eof: bool,
     /// max bytes handed out per poll_read (0 = unlimited)
     pub read_chunk: usize,
     pub read_waker: Option<Waker>,
@@ -71,6 +73,7 @@ impl Pipe {
             inbound: VecDeque::new(),
             eof: false,
             read_fail: false,
+            read_fail_unexpected_eof: false,
             read_chunk: 0,
             read_waker: None,
             outbound: Vec::new(),
@@ -100,6 +103,10 @@ impl Pipe {
             drop(s);
             w.wake();
         }
+    }
+    pub fn set_read_fail_kind(&self, unexpected_eof: bool) {
+        self.0.borrow_mut().read_fail_unexpected_eof = unexpected_eof;
+        self.set_read_fail();
     }
     pub fn set_read_fail(&self) {
         let mut s = self.0.borrow_mut();
@@ -135,6 +142,9 @@ impl AsyncRead for Pipe {
         s.n_read_calls += 1;
         if s.inbound.is_empty() {
             if s.read_fail {
+                if s.read_fail_unexpected_eof {
+                    return Poll::Ready(Err(io::Error::new(io::ErrorKind::UnexpectedEof, "scripted unexpected eof")));
+                }
                 return Poll::Ready(Err(io::Error::new(io::ErrorKind::ConnectionReset, "scripted read failure")));
             }
             if s.eof {
